@@ -996,6 +996,85 @@ func areaCodec(r *Rng, n int, dir string) (*AreaOut, error) {
 		}
 	}
 
+	// (9) "values of any length": entries larger than one growth step of a DBI's buffer (10 MB), on a fresh DBI
+	// and on one that is nearly full, followed by a small entry; every entry reads back byte for byte
+	for _, sc := range []struct {
+		name  string
+		hint  int
+		sizes []int
+	}{
+		{"fresh DBI, one 11 MB value", 0, []int{11 << 20, 3}},
+		{"size hint 6 MB, 5 MB used, one 8 MB value", 6 << 20, []int{5 << 20, 8 << 20, 3}},
+		{"three 4 MB values then 21 MB", 0, []int{4 << 20, 4 << 20, 4 << 20, 21 << 20, 1}},
+	} {
+		out.OracleN++
+		type res struct {
+			ok  bool
+			msg string
+		}
+		ch := make(chan res, 1)
+		go func() {
+			defer func() {
+				if p := recover(); p != nil {
+					ch <- res{false, fmt.Sprintf("panic: %v", p)}
+				}
+			}()
+			d := snapshot.NewDBISize(sc.hint)
+			d.SetName("big")
+			var want [][]byte
+			for j, n := range sc.sizes {
+				v := bytes.Repeat([]byte{byte('a' + j)}, n)
+				v[n-1] = '!'
+				want = append(want, v)
+				d.Append(snapshot.KV{Key: []byte(fmt.Sprintf("k%d", j)), Value: v, TimestampNano: uint64(j + 1)})
+			}
+			sn := &snapshot.Snapshot{FormatVersion: 3, CompatVersion: 1, Databases: []*snapshot.DBI{d}}
+			var buf bytes.Buffer
+			if _, err := sn.WriteTo(&buf); err != nil {
+				ch <- res{false, "encode: " + err.Error()}
+				return
+			}
+			blob := buf.Bytes()
+			back := new(snapshot.Snapshot)
+			if err := back.Unmarshal(blob); err != nil {
+				ch <- res{false, "decode: " + err.Error()}
+				return
+			}
+			if len(back.Databases) != 1 {
+				ch <- res{false, fmt.Sprintf("%d DBIs read back", len(back.Databases))}
+				return
+			}
+			bd := back.Databases[0]
+			bd.ResetCursor()
+			for j := range want {
+				kv, err := bd.Next()
+				if err != nil {
+					ch <- res{false, fmt.Sprintf("entry %d: %v", j, err)}
+					return
+				}
+				if string(kv.Key) != fmt.Sprintf("k%d", j) || !bytes.Equal(kv.Value, want[j]) || kv.TimestampNano != uint64(j+1) {
+					ch <- res{false, fmt.Sprintf("entry %d (value of %d bytes) reads back as key %q, %d bytes, timestamp %d", j, len(want[j]), kv.Key, len(kv.Value), kv.TimestampNano)}
+					return
+				}
+			}
+			if _, err := bd.Next(); err == nil {
+				ch <- res{false, "more entries read back than were appended"}
+				return
+			}
+			ch <- res{true, ""}
+		}()
+		var rr res
+		select {
+		case rr = <-ch:
+		case <-time.After(60 * time.Second):
+			rr = res{false, "no result after 60 s"}
+		}
+		hist(out.Hist, "huge-entries")
+		if !rr.ok {
+			out.Oracle = append(out.Oracle, OracleFailure{"C07", "huge-entry-round-trip", sc.name + ": " + rr.msg, nil})
+		}
+	}
+
 	out.Cases = len(cases)
 	out.Distinct = len(nontriv)
 	for _, k := range sortedKeys(tags) {
